@@ -309,7 +309,17 @@ class Managers(Family):
             for q in c["qs"]:
                 g = m.get_ctrlpt(*q)
                 gets.append(None if g is None else (int(g[0]) if g else 0))
-            return {"tbl": tbl, "final": final, "gets": gets, "rej": rej}
+            # iteration (twice: the index is reset), len, reversed and a deep copy of the manager see the points in flat-index order
+            it1 = [int(p[0]) if p else 0 for p in m]
+            it2 = [int(p[0]) if p else 0 for p in m]
+            rv = [int(p[0]) if p else 0 for p in reversed(m)]
+            import copy as _copy
+            cp = _copy.deepcopy(m)
+            cpl = [int(p[0]) if p else 0 for p in cp.ctrlpts]
+            cp.set_ctrlpt([float(777)], *([0] * len(sz)))
+            views = {"iter": it1 == final and it2 == final, "len": len(m) == len(final), "rev": rv == final[::-1], "copy": cpl == final,
+                     "copy_indep": [int(p[0]) if p else 0 for p in m.ctrlpts] == final}
+            return {"tbl": tbl, "final": final, "gets": gets, "rej": rej, "views": views}
         return call(f)
 
     def coq(self, c, out):
@@ -592,6 +602,9 @@ class Transpose(Family):
         if "ok" not in out:
             return "false"
         o = out["ok"]
+        for nm, okv in (o.get("views") or {}).items():
+            if not okv:
+                return "managers-%s: the %s view of the manager does not show the control points in flat-index order / a deep copy is not independent" % (nm, nm)
         S = g_surf(in_surf(c))
         parts = ["surf_eqb (transpose 0%%nat %s) %s" % (S, g_surf(o["T"])),
                  "eqLLnat (view2d 0%%nat %s %s %s) %s" % (G.n(o["T"]["su"]), G.n(o["T"]["sv"]), G.nl(o["T"]["P"]), G.nll(o["T"]["v2d"])),
@@ -674,7 +687,11 @@ class Extract(Family):
             b = mk_vol(c)
             tab = labeller(hom(b))
             ex = construct.extract_surfaces(b)
-            return {k: [canon_surf(x, tab) for x in ex[k]] for k in ("uv", "uw", "vw")}
+            res = {k: [canon_surf(x, tab) for x in ex[k]] for k in ("uv", "uw", "vw")}
+            # the six boundary surfaces: first and last member of every family, in the documented order
+            iso = [canon_surf(x, tab) for x in construct.extract_isosurface(b)]
+            res["iso_ok"] = iso == [res["uv"][0], res["uv"][-1], res["uw"][0], res["uw"][-1], res["vw"][0], res["vw"][-1]]
+            return res
         return call(f)
 
     def coq(self, c, out):
@@ -707,6 +724,8 @@ class Extract(Family):
                     return "extract_curves(extract_u=%s, extract_v=%s): the %s family is not exactly the requested one" % (eu, ev, "u" if not oku else "v")
             return None
         sw = c["sw"]
+        if o.get("iso_ok") is False:
+            return "extract_isosurface: not (uv[0], uv[-1], uw[0], uw[-1], vw[0], vw[-1]) of extract_surfaces"
         pts = net(su, sv, sw, 3, c["rat"])
         P = lambda u, v, w: pts[v + sv * (u + su * w)]
         spec = {"uv": (sw, su, sv, "pu", "pv", "Uu", "Uv", lambda k, a, b: P(a, b, k)),
